@@ -459,6 +459,24 @@ def _plain(d):
     return out
 
 
+_CHILDREN = []  # (pid, path, chunk) of the discharge workers of the function being verified (killed on a budget overrun)
+
+
+def kill_children():
+    import signal as _sig
+    for pid, path, _ch in list(_CHILDREN):
+        try:
+            os.kill(pid, _sig.SIGKILL)
+            os.waitpid(pid, 0)
+        except OSError:
+            pass
+        try:
+            os.unlink(path)
+        except OSError:
+            pass
+    del _CHILDREN[:]
+
+
 def discharge(rep, jobs=1):
     """Discharge all obligations of a FunctionReport. Fills rep.obligations (plain dicts).  With jobs > 1 the
     obligations are split over forked worker processes (the z3 terms live in the forked address space; results come
@@ -470,7 +488,8 @@ def discharge(rep, jobs=1):
         return rep
     import pickle
     chunks = [hard[k::jobs] for k in range(jobs)]
-    children = []
+    children = _CHILDREN
+    del children[:]
     for ch in chunks:
         fd, path = tempfile.mkstemp(suffix=".pkl")
         os.close(fd)
